@@ -27,6 +27,7 @@ mod c33;
 mod c34;
 mod c03;
 mod c08d;
+mod typedx;
 mod c03decl;
 mod c30;
 mod c31;
@@ -102,16 +103,19 @@ fn generate(prop: &str, sink: &mut sink::Sink, rng: &mut rng::Rng, n: u64) -> bo
         }
         "C09" => lang::generate(sink, rng, n, false, Some("o.c09")),
         "C01" => {
+            typedx::generate(sink, rng, "o.c01");
             typed::generate(sink, rng, n, "o.c01");
             typed::generate_env(sink, rng, n, "o.c01");
             tinfo::generate(sink, rng, n);
         }
         "C02" => {
+            typedx::generate(sink, rng, "o.c02");
             typed::generate(sink, rng, n, "o.c02");
             typed::generate_env(sink, rng, n, "o.c02");
             tinfo::generate(sink, rng, n);
         }
         "C12" => {
+            typedx::generate(sink, rng, "o.c12");
             typed::generate(sink, rng, n, "o.c12");
             typed::generate_env(sink, rng, n, "o.c12");
             tinfo::generate(sink, rng, n);
